@@ -1,0 +1,62 @@
+//go:build verif
+
+package timed
+
+// Contracts for the timed TaskExecutor (property C18, identifier clauses: at most one pending task per
+// identifier, scheduling an identifier again replaces its pending task, Cancel finds the pending task), read by
+// the verification machinery in /verif. Comment-only file.
+//
+// Ghost state: live[e] - element e was scheduled through the TaskExecutor and has neither been superseded,
+// cancelled nor finished; idOf[e] - the identifier it was scheduled under. Invariant of queuedElementsMutex:
+// every live element is the map entry of its identifier (hence at most one per identifier, and Cancel / a new
+// ExecuteAt find it), and every map entry belongs to its key. The wrapper that runs a task marks its own element
+// finished; removing whatever entry is registered under the identifier at that time breaks the invariant when the
+// identifier has been re-scheduled meanwhile (for instance by the task's own callback).
+
+/*@
+global live BoolArr                -- element -> scheduled, not superseded / cancelled / finished (ghost)
+global idOf (Array Int Str)        -- element -> identifier (ghost; contracts are instantiated for T = string)
+global cur Int                     -- the element whose wrapper is running (ghost)
+
+type TaskExecutor
+  monitor queuedElementsMutex level 4 guards
+    invariant self.queuedElements != nil && self.queuedElements.m != nil && self.queuedElements.opts != nil && unlocked(self.queuedElements.mutex)
+    invariant forall e Int :: sel(live, e) ==> has(self.queuedElements.m, sel(idOf, e)) && self.queuedElements.m[sel(idOf, e)] == e
+    invariant forall k T :: has(self.queuedElements.m, k) ==> self.queuedElements.m[k] != nil && sel(idOf, self.queuedElements.m[k]) == k
+
+-- the underlying executor / queue (not part of this claim): scheduling returns a new element, or nil after shutdown
+assume-func github.com/iotaledger/hive.go/runtime/timed.Executor.ExecuteAt(t, f, time) (r)
+  requires t != nil
+  ensures r == nil || (fresh(r) && !sel(live, r))
+assume-func github.com/iotaledger/hive.go/runtime/timed.QueueElement.Cancel(e)
+  requires e != nil
+
+func TaskExecutor.ExecuteAt
+  instantiate T: string
+  opt twophase queuedElementsMutex
+  requires t != nil && t.Executor != nil && unlocked(t.queuedElementsMutex)
+  modifies everything
+  -- the previous task of the identifier is superseded, the new one is live
+  ghost after call QueueElement.Cancel: live = upd(live, queuedElement, false)
+  ghost after call Executor.ExecuteAt: live = upd(live, result, result != nil)
+  ghost after call Executor.ExecuteAt: idOf = upd(idOf, result, identifier)
+  ensures unlocked(t.queuedElementsMutex)
+
+func TaskExecutor.Cancel
+  instantiate T: string
+  opt twophase queuedElementsMutex
+  requires t != nil && unlocked(t.queuedElementsMutex)
+  modifies everything
+  ghost after call QueueElement.Cancel: live = upd(live, queuedElement, false)
+  ensures unlocked(t.queuedElementsMutex)
+
+-- the wrapper of one scheduled task: runs the callback, then (under the mutex) its element is finished
+func TaskExecutor.ExecuteAt$1
+  instantiate T: string
+  requires t != nil && *t != nil && identifier != nil && callback != nil && *callback != nil && unlocked((*t).queuedElementsMutex)
+  callback callback()
+  modifies everything
+  ghost at entry: choose cur with sel(idOf, cur) == *identifier
+  ghost after acquire: live = upd(live, cur, false)
+  ensures unlocked((*t).queuedElementsMutex)
+@*/
